@@ -1,16 +1,26 @@
 """./check configuration for C11 (see verif_props.py)."""
 
-PROP = {'technique': 'Lean refinement of ring buffer and sets to abstract specs by induction over op scripts, storage-level heap model for clone independence; differential tie',
+PROP = {'technique': 'Lean refinement of ring buffer and sets to abstract specs by induction over op scripts, storage-level heap model for clone independence; '
+              'the stand-ins for slices.Sort and slices.BinarySearch proved equal to statement-level models of the real functions (pdqsortOrdered, '
+              'the bisection loop); differential tie',
  'module': 'GolibsVerif.Theorems.C11',
+ 'modules': ['GolibsVerif.Theorems.C11', 'GolibsVerif.Theorems.C11Sort'],
  'namespace': 'GolibsVerif.C11',
  'rule': 'op scripts against RingBuffer[int] (capacities 0,1,2,3,5, nil and zero-value receivers; '
          'Push/Clear/Current/Len/Range/ReverseRange with callbacks stopping at every position), SortedSliceSet[int], '
          'SortedSliceSet[float64] (with NaN, +-Inf) and MapSet[int] (three registers: '
-         'New/Add/Delete/Has/Len/Values/Range/Clear/Clone/Equal/nil); non-trivial = the script wraps the ring / inserts strictly inside a '
+         'New/Add/Delete/Has/Len/Values/Range/Clear/Clone/Equal/nil); C11.std.sort / C11.std.bsearch: the real slices.Sort and '
+         'slices.BinarySearch on []int (sorted and unsorted, 0..250 elements) against their models, labelled trivial-std.*; non-trivial = the script wraps the ring / inserts strictly inside a '
          'sorted set / deletes a present value; distinct = distinct case line',
  'trusted': ["Go's built-in map, make, clear and the stdlib functions "
-             'slices.Sort/Compact(Func)/BinarySearch/Insert/Delete/Clone/Equal(Func), maps.Clone/Equal are modelled by their documented '
-             'results on lists (contract SORT-1: BinarySearch = lower bound on a sorted slice); sampled by the tie on every run',
+             'slices.Compact(Func)/Insert/Delete/Clone/Equal(Func), maps.Clone/Equal are modelled by their documented '
+             'results on lists; sampled by the tie on every run',
+             'slices.Sort and slices.BinarySearch: the stand-ins of Model/C11.lean (insertion sort, lower bound) are no longer contracts: '
+             'sort_stdlib and binarySearch_lower_bound prove them equal to the models of the real functions in Go/Sort.lean (slices.Sort = '
+             "Go 1.24.2's pdqsortOrdered, i.e. the pdqsort model of C12 run with cmp.Less — zsortordered.go is zsortanyfunc.go with cmp.Less(x, y) "
+             'for cmp(x, y) < 0; slices.BinarySearch = its bisection loop and the final x[i] == target).  Trusted instead: these models are '
+             'hand-written after $GOROOT/src/slices/{zsortanyfunc,zsortordered,sort}.go of go1.24.2 and tied to the real functions by the '
+             'C11.std.sort / C11.std.bsearch cases and the C12.std.sortfunc cases on every run (sampled)',
              'backing-array sharing between SortedSliceSet objects is modelled separately (Model/C11Heap.lean: in-place '
              'Insert/Delete/clear, allocating Clone/append as the stdlib documents them); this storage model is hand-written and is tied '
              "to the Go code only through the value-level tie plus the harness's clone-then-mutate scripts (all registers compared with "
@@ -24,10 +34,10 @@ PROP = {'technique': 'Lean refinement of ring buffer and sets to abstract specs 
  'level_note': 'full strength: ring_refines, ring_view, range_early_stop, range_stopAt, clear_eq_new, clear_indistinguishable, '
                'ring_nil_current, sorted_run, sorted_refines, sorted_queries, sorted_values_unique, sorted_equal_iff, sorted_clone, '
                'clone_faithful, heap_clone_independent, heap_other_objects_unchanged, mapset_run, mapset_refines, mapset_equal_iff, '
-               'mapset_range, mapset_clone_faithful, nil_receivers; no _partial theorems.  Clone independence is proved for SortedSliceSet '
+               'mapset_range, mapset_clone_faithful, nil_receivers, sort_stdlib, binarySearch_lower_bound; no _partial theorems.  Clone independence is proved for SortedSliceSet '
                'on a storage-level model with shared backing arrays; for MapSet it rests on maps.Clone (trusted).  Element types where == '
                'disagrees with cmp.Compare (float NaN) are outside GoOrdered: covered by the tie through an order embedding and by the '
-               'direct oracle.  trusted: Lean kernel; the differential correspondence (sampled); stdlib slices/maps contracts (SORT-1)',
+               'direct oracle.  trusted: Lean kernel; the differential correspondence (sampled); stdlib slices/maps contracts other than Sort/BinarySearch',
  'assumptions': ['element type of SortedSliceSet theorems: == agrees with cmp.Compare (ints, strings, floats without NaN); float64 with '
                  'NaN is exercised by the harness only',
                  'Go map semantics (MapSet) and stdlib slices/maps functions are trusted per their documentation',
